@@ -84,6 +84,7 @@ pub struct Run {
     samples: Mutex<Vec<Value>>,
     notes: Mutex<BTreeMap<String, Value>>,
     caps: Mutex<Vec<String>>,
+    pub rejected: AtomicU64,
     assumptions: Mutex<Vec<String>>,
     pub known: Vec<KnownFinding>,
     known_hits: Mutex<BTreeMap<String, (String, u64, Value)>>,
@@ -119,6 +120,7 @@ impl Run {
             samples: Mutex::new(vec![]),
             notes: Mutex::new(BTreeMap::new()),
             caps: Mutex::new(vec![]),
+            rejected: AtomicU64::new(0),
             assumptions: Mutex::new(vec![]),
             known,
             known_hits: Mutex::new(BTreeMap::new()),
@@ -129,6 +131,10 @@ impl Run {
     }
     pub fn elapsed(&self) -> f64 {
         self.start.elapsed().as_secs_f64()
+    }
+    /// positions the library refused to construct (counted; see posgraph::on_rejected)
+    pub fn add_dynamic_rejected(&self) {
+        self.rejected.fetch_add(1, Ordering::Relaxed);
     }
     pub fn over_budget(&self) -> bool {
         self.elapsed() > self.budget_s
@@ -266,6 +272,10 @@ impl Run {
         let caps = self.caps.lock().unwrap().clone();
         cov.insert("exhaustive".into(), json!(exhaustive && caps.is_empty()));
         cov.insert("caps_hit".into(), json!(caps));
+        let rej = self.rejected.load(Ordering::Relaxed);
+        if rej > 0 {
+            cov.insert("valid_positions_refused_by_the_library".into(), json!(rej));
+        }
         let mut cs = Map::new();
         for (k, v) in self.counters.iter() {
             cs.insert(k.to_string(), json!(v.load(Ordering::Relaxed)));
